@@ -89,10 +89,10 @@ func (o svcOp) String() string {
 }
 
 type svcEnv struct {
-	dir   string
-	file  string
-	s     *Service
-	down  bool
+	dir    string
+	file   string
+	s      *Service
+	down   bool
 	cancel context.CancelFunc
 }
 
